@@ -296,6 +296,38 @@ def wedgeSign (th : List (Nat × V2)) (pn : V2) (explicitH : Option V2) (order :
     pure (if s then v else -v)
   | _ => .error .valueError
 
+/-! ## wedge bonds of an allene (`add_wedge` allene branch, `__wedge_sign` allene branch) -/
+
+/-- `add_wedge(n, m, mark)`, allene branch. `e` = `stereogenic_allenes[c]` = `(n0, n1, n2, n3)` (`n0, n2` on terminal `t1`,
+`n1, n3` on `t2`), `p1 p2` = coordinates of `t1 t2`, `coord` = coordinates of the substituents, `nIsT1` = the wedge starts
+at `t1`. The four-way table on `order.index(m)`: which opposite substituent is looked at, whether the terminals are
+swapped, whether the sign is reversed (second substituent of a terminal, or hydrogen). -/
+def addWedgeAllene (e : Ends) (p1 p2 : V2) (coord : Nat → Option V2) (nIsT1 : Bool) (m : Nat) (mIsH : Bool)
+    (mark : Int) : Except PyErr (Option Bool) :=
+  let pick : Except PyErr (Nat × Bool × Bool) :=      -- (m1, swapped, r)
+    if mIsH then .ok (if nIsT1 then (e.n1, false, true) else (e.n0, true, true))
+    else if m = e.n0 then .ok (e.n1, false, false)
+    else if m = e.n1 then .ok (e.n0, true, false)
+    else if e.n2 = some m then .ok (e.n1, false, true)
+    else if e.n3 = some m then .ok (e.n0, true, true)
+    else .error .valueError                          -- `order.index(m)` of a foreign atom
+  match pick with
+  | .error err => .error err
+  | .ok (m1, swapped, r) =>
+    match coord m1 with
+    | none => .error .keyError
+    | some pm =>
+      let s := if swapped then alleneSign mark p2 p1 pm else alleneSign mark p1 p2 pm
+      .ok (if s = 0 then none else some (if r then decide (s < 0) else decide (s > 0)))
+
+/-- `__wedge_sign`, allene branch, for the tuple `(x0, x1, ta, tb, c, True)` that `_wedge_map` builds: wedge from terminal
+`ta` to its substituent `x0`, `x1` = reference substituent at the other terminal `tb` -/
+def wedgeSignAllene (e : Ends) (isH : Nat → Bool) (x0 x1 : Nat) (pa pb : V2) (px1 : V2) (stored : Option Bool) :
+    Except PyErr Int := do
+  let s ← translateAllene (some e) isH x0 x1 stored none
+  let v := alleneSign 1 pa pb px1
+  pure (if s then v else -v)
+
 /-! ## stereogenicity of one double bond (`MoleculeStereo.__chiral_centers`, cis-trans part) -/
 
 /-- `any(len(x) < 8 for x in atoms_rings[n] if m in x)`: the "skip small rings" test; `sizes` = sizes of the SSSR rings
